@@ -14,24 +14,28 @@ pub mod dl {
         use sc::nr;
         use sc::vk::{err, ks, K};
 
-        pub const ARENA: usize = 256 * 1024;
+        /// dlmalloc asks the OS for multiples of 64 KiB: one arena serves every small/medium request, anything larger is
+        /// refused (ENOMEM), which is a legal answer of the OS
+        pub const ARENA: usize = 64 * 1024;
         #[repr(C, align(4096))]
         pub struct Arena(pub [u8; ARENA]);
-        pub static mut A0: Arena = Arena([0; ARENA]);
-        pub static mut A1: Arena = Arena([0; ARENA]);
+        /// the two arenas live in the harness's frame, uninitialised (= arbitrary content, as freshly mapped memory is only
+        /// zero the first time)
+        pub type Mem = core::mem::MaybeUninit<[Arena; 2]>;
         pub struct Os {
+            pub base: [usize; 2],
             pub used: [bool; 2],
             pub len: [usize; 2],
             pub mmaps: u32,
             pub refused: u32,
             pub bad_unmap: u32,
         }
-        pub static mut OS: Os = Os { used: [false; 2], len: [0; 2], mmaps: 0, refused: 0, bad_unmap: 0 };
+        pub static mut OS: Os = Os { base: [0; 2], used: [false; 2], len: [0; 2], mmaps: 0, refused: 0, bad_unmap: 0 };
         pub fn os() -> &'static mut Os {
             unsafe { &mut *core::ptr::addr_of_mut!(OS) }
         }
         pub fn base(i: usize) -> usize {
-            unsafe { if i == 0 { core::ptr::addr_of!(A0) as usize } else { core::ptr::addr_of!(A1) as usize } }
+            os().base[i]
         }
 
         fn hook(_k: &mut K, n: usize, a: &[usize; 6]) -> Option<usize> {
@@ -89,7 +93,9 @@ pub mod dl {
             }
         }
 
-        pub fn setup(faults: bool) {
+        pub fn setup(faults: bool, mem: &mut Mem) {
+            let p = mem.as_mut_ptr() as usize;
+            os().base = [p, p + ARENA];
             let k = ks();
             if faults {
                 k.model_with_one_fault();
@@ -161,13 +167,12 @@ pub mod dl {
         #[kani::proof]
         pub fn arith_bits() {
             let x: u32 = kani::any();
+            // precondition at all three call sites (a non-empty bin map): x != 0; with x == 0 the expression `!x + 1`
+            // overflows, which the callers exclude
+            kani::assume(x != 0);
             let lb = least_bit(x);
             kani::cover!(x == 0x8000_0000, "only the top bit");
-            if x != 0 {
-                assert!(lb != 0 && lb & (lb - 1) == 0 && x & lb != 0 && x & (lb - 1) == 0, "least_bit isolates the lowest set bit");
-            } else {
-                assert!(lb == 0);
-            }
+            assert!(lb != 0 && lb & (lb - 1) == 0 && x & lb != 0 && x & (lb - 1) == 0, "least_bit isolates the lowest set bit");
             let l = left_bits(x);
             if x != 0 && x & (x - 1) == 0 && x != 0x8000_0000 {
                 // for a single bit: exactly the bits to its left
@@ -186,13 +191,14 @@ pub mod dl {
         #[kani::proof]
         #[kani::unwind(35)]
         pub fn single_malloc_any_size() {
-            setup(true);
+            let mut mem = Mem::uninit();
+            setup(true, &mut mem);
             let mut a = Dlmalloc::new();
             let size: usize = kani::any();
             let p = unsafe { a.malloc(size, 8) } as usize;
             let o = os();
             let k = ks();
-            kani::cover!(p != 0 && size > 200_000, "large request served by a direct mapping");
+            kani::cover!(p != 0 && size > 30_000, "large request");
             kani::cover!(p != 0 && size == 1, "tiny request");
             kani::cover!(p == 0 && k.n_failed == 1, "the OS refused memory");
             kani::cover!(p == 0 && size >= Dlmalloc::MAX_REQUEST, "request too large");
@@ -215,7 +221,8 @@ pub mod dl {
         #[kani::proof]
         #[kani::unwind(35)]
         pub fn single_memalign() {
-            setup(false);
+            let mut mem = Mem::uninit();
+            setup(false, &mut mem);
             let mut a = Dlmalloc::new();
             let size: usize = kani::any();
             let sh: u32 = kani::any();
@@ -233,12 +240,13 @@ pub mod dl {
         #[kani::proof]
         #[kani::unwind(35)]
         pub fn single_calloc_zeroed() {
-            setup(false);
+            let mut mem = Mem::uninit();
+            setup(false, &mut mem);
             // dirty memory: the arena is not zero when handed out for the second time
             let fill: u8 = kani::any();
             let at: usize = kani::any();
             kani::assume(at < 8192);
-            unsafe { A0.0[at] = fill };
+            unsafe { *((base(0) + at) as *mut u8) = fill };
             let mut a = Dlmalloc::new();
             let size: usize = kani::any();
             kani::assume(size >= 1 && size <= 512);
@@ -271,7 +279,8 @@ pub mod dl {
         #[kani::proof]
         #[kani::unwind(35)]
         pub fn history_small_bins() {
-            setup(false);
+            let mut mem = Mem::uninit();
+            setup(false, &mut mem);
             let mut a = Dlmalloc::new();
             let v: u8 = kani::any();
             unsafe {
